@@ -50,6 +50,7 @@ def all_units():
 VERUS_KINDS = [
     ('postcondition not satisfied', 'postcondition'),
     ('precondition not satisfied', 'precondition'),
+    ('precondition not met', 'precondition'),   # wording used for vstd-specified callees, e.g. 'index in bounds for this access'
     ('possible arithmetic underflow/overflow', 'overflow'),
     ('possible division by zero', 'divzero'),
     ('invariant not satisfied at end of loop body', 'invariant-preserved'),
